@@ -140,6 +140,10 @@ func (e *Enc) prelude() string {
 	for _, a := range e.axioms {
 		fmt.Fprintf(&sb, "(assert %s)\n", a)
 	}
+	if _, ok := e.funs["sbyte"]; ok {
+		// the bytes of a string are bytes
+		fmt.Fprintf(&sb, "(assert (forall ((i!s Int) (p!s Int)) (! (and (<= 0 (sbyte i!s p!s)) (<= (sbyte i!s p!s) 255)) :pattern ((sbyte i!s p!s)))))\n")
+	}
 	for _, a := range e.implFacts() {
 		fmt.Fprintf(&sb, "(assert %s)\n", a)
 	}
